@@ -92,6 +92,45 @@ def grammar(rnd, n, numeric=False, with_unbounded=True, with_text=True):
     return out
 
 
+def random_dags(rnd, n, max_formulas=7):
+    """random acyclic workbooks: every formula refers to cells defined before it - single cells, ranges over the
+    input block or over earlier formulas, whole columns of the input block, mixed with numeric functions"""
+    out = []
+    for k in range(n):
+        rows = rnd.randint(2, 4)
+        inputs = {f'A{r}': rnd.choice(NUM_POOL) for r in range(1, rows + 1)}
+        inputs.update({f'B{r}': rnd.choice(NUM_POOL) for r in range(1, rows + 1) if rnd.random() < 0.7})
+        formulas = {}
+        avail = list(inputs)
+        for i in range(rnd.randint(3, max_formulas)):
+            cell = f'{chr(ord("D") + i % 4)}{i // 4 + 1}'
+            kind = rnd.random()
+            a, b = rnd.choice(avail), rnd.choice(avail)
+            if kind < 0.3:
+                f = f'={a}{rnd.choice("+-*")}{b}'
+            elif kind < 0.5:
+                f = f'={rnd.choice(["SUM", "MAX", "MIN", "COUNT"])}(A1:A{rows})+{a}'
+            elif kind < 0.6:
+                f = f'=SUM(A1:B{rows})-{a}'
+            elif kind < 0.7:
+                f = f'=IF({a}>{b},{a},{b}+1)'
+            elif kind < 0.8 and formulas:
+                fs = sorted(formulas)
+                col = fs[0][0]
+                same_col = [c for c in fs if c[0] == col]
+                f = f'=SUM({same_col[0]}:{same_col[-1]})+{a}' if len(same_col) > 1 else f'={same_col[0]}*2'
+            elif kind < 0.9:
+                f = f'=SUM(A:A)+{b}'
+            else:
+                f = f'=ROUND({a}/3,2)&"-"&{b}'
+            # a text result must not feed arithmetic later: keep text formulas out of the pool of operands
+            formulas[cell] = f
+            if '&' not in f:
+                avail.append(cell)
+        out.append(WB(inputs, formulas, f'random-dag-{k}'))
+    return out
+
+
 def cse_grammar(rnd, n):
     """workbooks with CSE array formulas next to ordinary cells that take ranges"""
     out = []
